@@ -167,6 +167,10 @@ theorem C11_once (c : Cpu) (es : List Event) :
       have e1 : latched (runEvent c (.writeWord a w)) = latched c := rfl
       simp only [acceptCount, requestCount] at *
       omega
+    | setRom s t =>
+      have e1 : latched (runEvent c (.setRom s t)) = latched c := rfl
+      simp only [acceptCount, requestCount] at *
+      omega
 
 /-- non-vacuity: mode 1, byte 0x00, PC = 0x1234 -> PC = 0x38, stack holds 34 12 -/
 example :
